@@ -1,6 +1,6 @@
 (** * C09 — unwrapping conserves the value: handed out once or kept, never both or neither.  Property theorems only. *)
 From Coq Require Import NArith List Bool Arith.
-From TV Require Import Layout SrcFacts Conc ConcProofs ConcX Mech MechProofs MechLog MechProps Extracted.
+From TV Require Import Layout SrcFacts Conc ConcProofs ConcX ConcXProofs Mech MechProofs MechLog MechProps Extracted.
 Import ListNotations.
 Open Scope N_scope.
 
@@ -76,6 +76,16 @@ Proof. reflexivity. Qed.
 Theorem C09_protocol_as_written : Extracted.count_progs = good_progs.
 Proof. reflexivity. Qed.
 
+(** ... and those programs, interpreted one instruction per step on the view memory, are safe for EVERY schedule: any
+    number of threads, any interleaving at instruction granularity, stale loads included — no data race, no access
+    after free, no second destroy or free, no value lost at quiescence.  (Proved by a simulation into [Conc.v]:
+    ConcXProofs.xstep_sim; the statement is about the translated programs, so a change of the protocol in the source
+    changes the statement that has to be proved.) *)
+Theorem C09_protocol_as_written_is_safe :
+  forall ls s, xexec Extracted.count_progs xinit ls = Some s -> bad s = false.
+Proof. exact xsafe. Qed.
+
+
 
 
 (** the uniqueness tests, copy-on-write and unwrapping functions (make_mut, make_unique, get_mut, try_unique, try_unwrap,
@@ -94,3 +104,4 @@ Print Assumptions C09_moved_out_or_destroyed_exactly_once.
 Print Assumptions C09_closed_world.
 Print Assumptions C09_protocol_as_written.
 Print Assumptions C09_functions_are_the_modelled_ones.
+Print Assumptions C09_protocol_as_written_is_safe.
